@@ -47,6 +47,10 @@ ALLOWED = {"S": {"client.py"}, "E": {"client.py", "__init__.py", "operations.py"
            "N": {"__init__.py"}, "I": set()}
 
 
+CUSTOM_OPS = "C15-forward-refs-custom-operations"
+E_SHADOW = "C15-extract-constant-shadowed"
+N_CUSTOM = "C15-no-reimports-custom-operations"
+
 PLANS = [
     {"k": 0, "null": 0.0, "lens": [1], "seed": 0},
     {"k": 1, "null": 0.3, "lens": [0, 2], "seed": 1},
@@ -105,7 +109,58 @@ fragment QF on Query { me { id } }
 """
 
 
+# variable names that clash with the locals of a generated method (query, variables, response, data, _query), with
+# names the plugins introduce (the operations constants X_GQL, TYPE_CHECKING), with typing names used in
+# annotations and with classes the plugins import — on queries, a mutation and subscriptions
+CLASH_SDL = """type Item { id: ID! name: String }
+type Query {
+  search(query: String, variables: Int, response: String, data: String): [Item!]!
+  find(_query: String, SEARCH_GQL: String, FIND_GQL: String, Optional: Int, TYPE_CHECKING: Boolean, List: String): Item
+  lookup(LookupLookup: String, gql: String, Any: String, UNSET: String, Dict: Int, UnsetType: String): Item
+  count(query: String): Int!
+  both(query: String, _query: String): Int
+}
+type Mutation { rename(query: ID!, data: String!, variables: String, RENAME_GQL: String): Item }
+type Subscription {
+  watch(query: String, response: Int, data: String, WATCH_GQL: String, AsyncIterator: String): Item
+  ticks(query: String, variables: Int): Int!
+}
+"""
+CLASH_QUERIES = """query Search($query: String, $variables: Int, $response: String, $data: String) {
+  search(query: $query, variables: $variables, response: $response, data: $data) { id name } }
+query Find($_query: String, $SEARCH_GQL: String, $FIND_GQL: String, $Optional: Int, $TYPE_CHECKING: Boolean, $List: String) {
+  find(_query: $_query, SEARCH_GQL: $SEARCH_GQL, FIND_GQL: $FIND_GQL, Optional: $Optional, TYPE_CHECKING: $TYPE_CHECKING, List: $List) { id } }
+query Lookup($LookupLookup: String, $gql: String, $Any: String, $UNSET: String, $Dict: Int, $UnsetType: String) {
+  lookup(LookupLookup: $LookupLookup, gql: $gql, Any: $Any, UNSET: $UNSET, Dict: $Dict, UnsetType: $UnsetType) { id name } }
+query Count($query: String) { count(query: $query) }
+query CountTwo($query: String) { count(query: $query) again: count(query: $query) }
+mutation Rename($query: ID!, $data: String!, $variables: String, $RENAME_GQL: String) {
+  rename(query: $query, data: $data, variables: $variables, RENAME_GQL: $RENAME_GQL) { id name } }
+subscription Watch($query: String, $response: Int, $data: String, $WATCH_GQL: String, $AsyncIterator: String) {
+  watch(query: $query, response: $response, data: $data, WATCH_GQL: $WATCH_GQL, AsyncIterator: $AsyncIterator) { id } }
+subscription Ticks($query: String, $variables: Int) { ticks(query: $query, variables: $variables) }
+"""
+
+
 def fixed_scenarios():
+    out = _fixed_scenarios()
+    for i, snake in enumerate([False, True]):
+        cfg = {"convert_to_snake_case": snake, "async_client": True, "opentelemetry_client": False}
+        out.append(scenario.Scenario(seed=-11 - i, sdl=CLASH_SDL, queries=CLASH_QUERIES, config=cfg,
+                                     features=("fixed", "local_clash")))
+    # enable_custom_operations is part of the configuration product (async and sync client)
+    for i, (base, asyn) in enumerate([(out[1], True), (out[2], False)]):
+        cfg = dict(base.config, enable_custom_operations=True, async_client=asyn)
+        queries = base.queries if asyn else "\n".join(
+            l for l in base.queries.split("\nsubscription")[0].splitlines())
+        sdl = base.sdl if asyn else base.sdl.split("type Subscription")[0]
+        out.append(scenario.Scenario(seed=-21 - i, sdl=sdl, queries=queries + "\n", config=cfg,
+                                     features=("fixed", "custom_operations") + (("local_clash",) if not asyn else ()),
+                                     files=dict(base.files)))
+    return out
+
+
+def _fixed_scenarios():
     out = []
     files, sc = scenario.scalar_module()
     for i, (snake, scalars) in enumerate([(True, True), (False, False)]):
@@ -203,6 +258,16 @@ def drive(g, ops, sc, plans, want_consts=False):
             for pi, plan in enumerate(plans):
                 rng = random.Random(f"{sc.seed}|{name}|{pi}")
                 _vals, enc = g.encoded_args(op, rng, mode="rand" if pi else "min")
+                # the generator may rename a parameter that would shadow a module-level name (gql -> gql_,
+                # UNSET -> UNSET_ ...): take the real name from the loaded signature
+                snake = g.res.get("config", {}).get("convert_to_snake_case", True)
+                params = [p[0] for p in load.get("methods", {}).get(meth, {}).get("params", [])]
+                for vd in op.variable_definitions or ():
+                    want = scen.param_name(vd.variable.name.value, snake)
+                    if want in enc and want not in params:
+                        alt = [q for q in params if q.strip("_") == want.strip("_") and q not in enc]
+                        if len(alt) == 1:
+                            enc[alt[0]] = enc.pop(want)
                 out["calls"][(name, pi)] = g.call(method=meth, args=enc, plan=plan, c15=True, events=2)
     finally:
         g.stop()
@@ -227,8 +292,14 @@ def run(ctx):
     scenarios = fixed_scenarios()
     for i in range(n_seeded):
         feats = ("subscriptions", "toplevel") if i % 3 != 2 else ("toplevel",)
+        if i % 2 == 1:
+            feats += ("local_clash",)
         try:
-            scenarios.append(scenario.make(base_seed + i, features=feats, n_ops=3, depth=2))
+            sc = scenario.make(base_seed + i, features=feats, n_ops=3, depth=2)
+            if i % 5 == 4:  # configuration product: enable_custom_operations
+                sc.config = dict(sc.config, enable_custom_operations=True)
+                sc.features = tuple(sc.features) + ("custom_operations",)
+            scenarios.append(sc)
         except RuntimeError:
             run.dist("scenarios", "no-valid-scenario")
     configs = configurations(thorough, ctx.rng)
@@ -367,6 +438,13 @@ def _check_case(case, plans, ev):
         # ---------------------------------------------------------------- generation
         if not g.ok:
             ev.append(("count", 1))
+            exc = g.res.get("exc") or ["", ""]
+            if ("F" in cfg and sc.config.get("enable_custom_operations") and exc[0].endswith("KeyError")
+                    and "self" in exc[1]):
+                ev.append(("finding", CUSTOM_OPS, f"generation with plugins {cfg!r} and enable_custom_operations fails: {exc}",
+                           replay_of(case, cfg, exc=exc, tb=g.res.get("tb"))))
+                ev.append(("dist", "finding_inputs", "custom-operations+ClientForwardRefs"))
+                continue
             ev.append(("violation", f"generation with plugins {cfg!r} fails ({g.res.get('exc')}) while the unplugged one succeeds",
                        replay_of(case, cfg, exc=g.res.get("exc"), tb=g.res.get("tb")), True))
             continue
@@ -411,6 +489,13 @@ def compare(case, cfg, ops, plans, base_run, res, ev, first):
     load, bload = res["load"], base_run["load"]
     if not load.get("ok"):
         rep = replay_of(case, cfg, modules={k: v for k, v in load.get("modules", {}).items() if v != "ok"})
+        bad = rep["modules"]
+        if ("N" in cfg and case.sc.config.get("enable_custom_operations") and bad
+                and set(bad) <= {"custom_queries", "custom_mutations", "custom_fields", "custom_typing_fields"}
+                and all("cannot import name" in v for v in bad.values())):
+            ev.append(("finding", N_CUSTOM, f"package generated with {cfg!r} and enable_custom_operations does not import: {bad}", rep))
+            ev.append(("dist", "finding_inputs", "custom-operations+NoReimports"))
+            return
         # (finding F24 — every ClientForwardRefs package failed here — is fixed by /repo 7b86743: a regression is a violation)
         ev.append(("violation", f"package generated with plugins {cfg!r} does not import: {rep['modules']}", rep, True))
         return
@@ -468,6 +553,20 @@ def compare(case, cfg, ops, plans, base_run, res, ev, first):
         name = op.name.value
         meth = scen.method_name(name)
         shortened = None
+        # finding class: ExtractOperations + a variable whose Python name is the operation's own constant
+        params = {p[0] for p in bload.get("methods", {}).get(meth, {}).get("params", [])}
+        if "E" in cfg and const_name(name) in params:
+            b0, p0 = base_run["calls"].get((name, 0)) or {}, res["calls"].get((name, 0)) or {}
+            if norm_doc(b0.get("request", {}).get("query")) != norm_doc(p0.get("request", {}).get("query")) \
+                    or (b0.get("exc") or None) != (p0.get("exc") or None):
+                ev.append(("finding", E_SHADOW,
+                           f"{name}: with {cfg!r} the parameter {const_name(name)} shadows the operations constant: "
+                           f"sent {str(p0.get('request', {}).get('query'))[:60]!r}, outcome {p0.get('exc')}",
+                           replay_of(case, cfg, operation=name, unplugged=b0.get("request"), plugged=p0.get("request"),
+                                     outcome=p0.get("exc"))))
+                ev.append(("dist", "finding_inputs", "variable-named-like-own-constant+ExtractOperations"))
+                ev.append(("count", len(plans)))
+                continue
         for pi in range(len(plans)):
             b, p = base_run["calls"].get((name, pi)), res["calls"].get((name, pi))
             if b is None or p is None:
@@ -528,6 +627,8 @@ def compare(case, cfg, ops, plans, base_run, res, ev, first):
                     ev.append(("violation", f"{name}: parameter annotations change meaning with {cfg!r}",
                                replay_of(case, cfg, operation=name, unplugged=bh["params"], plugged=ph["params"]), True))
                 want = bh["return"]
+                if shortened is None and "S" in cfg:
+                    continue  # no call of this operation succeeded on either side: nothing to anchor the hint to
                 if shortened:
                     cls = class_of_return(bh["return"])
                     fh = (bhints.get("field_hints") or {}).get(cls) or {}
